@@ -4,7 +4,7 @@ use super::*;
 /// (theme, is a known-finding region).  A case is generated from exactly one theme; its tags are the theme name plus
 /// measurement tags.  Themes marked `true` are the regions of `known_findings.d/C16.json`; the generator gives them
 /// at most 30 % of the cases.
-pub const THEMES: [(&str, bool); 32] = [
+pub const THEMES: [(&str, bool); 33] = [
     ("valid", false),
     ("random_chars", false),
     ("lossy_bytes", false),
@@ -16,28 +16,29 @@ pub const THEMES: [(&str, bool); 32] = [
     ("long_garbage", false),
     ("deep_nesting", false),
     ("many_versions", false),
+    ("atomicity", false),
     ("q_plain", false),
     ("q_wrong_type", false),
     ("q_null_arg", false),
     ("q_order_limit", false),
     ("q_dml", false),
+    ("sess_dml", false),
     ("q_between_in", false),
     ("q_like", false),
     ("q_func", false),
+    ("q_nullif", false),
     ("q_agg", false),
+    ("q_div0", false),
+    ("q_overflow", false),
     // regions of known findings (known_findings.d/C16.json)
     ("ddl_alter", true),
     ("star_expr", true),
-    ("sess_dml", true),
-    ("atomicity", true),
     ("sess_atomicity", true),
     ("unique_violation", true),
-    ("q_div0", true),
-    ("q_overflow", true),
+    ("failed_update", true),
     ("q_case", true),
     ("q_subquery", true),
     ("q_having", true),
-    ("q_nullif", true),
 ];
 
 const KEYWORDS: [&str; 86] = [
@@ -551,15 +552,17 @@ fn themed_q(theme: &str, r: &mut Rng, s: &[Table], tags: &mut Vec<String>) -> Q 
                 _ => { tag("div0_update"); match col_of(r, t, &['i', 'I']) { Some(c) => Q::Upd { tbl: t.name.clone(), col: c.0.clone(), val: E::Bin(op, b(E::Col(c.0.clone())), b(E::Int(0))), wh: None }, None => sel(t, vec![E::Bin(op, b(E::Int(1)), b(E::Int(0)))], None) } }
             }
         }
-        "q_overflow" => {
+        "q_overflow" | "failed_update" => {
             let big = [2147483647i64, -2147483648, 4294967295, 9223372036854775807, -9223372036854775807, 3037000500, 100000000000][r.below(7) as usize];
             let c = col_of(r, t, &['i', 'I', 'u', 'U']).cloned().unwrap_or(anyc.clone());
-            match r.below(5) {
+            match if theme == "failed_update" { 4 + r.below(3) } else { r.below(4) } {
                 0 => { tag("ovf_add"); sel(t, vec![E::Bin("add", b(E::Col(c.0.clone())), b(E::Int(big)))], None) }
                 1 => { tag("ovf_mul"); sel(t, vec![E::Bin("mul", b(E::Col(c.0.clone())), b(E::Int(big)))], None) }
                 2 => { tag("ovf_lit"); sel(t, vec![E::Bin(["add", "mul", "sub"][r.below(3) as usize], b(E::Int(big)), b(E::Int(big)))], None) }
                 3 => { tag("ovf_neg"); sel(t, vec![E::Un("neg", b(E::Bin("sub", b(E::Int(-9223372036854775807)), b(E::Int(1)))))], None) }
-                _ => { tag("ovf_update"); Q::Upd { tbl: t.name.clone(), col: c.0.clone(), val: E::Bin("mul", b(E::Col(c.0.clone())), b(E::Int(big))), wh: None } }
+                4 => { tag("ovf_update"); Q::Upd { tbl: t.name.clone(), col: c.0.clone(), val: E::Bin("mul", b(E::Col(c.0.clone())), b(E::Int(big))), wh: None } }
+                5 => { tag("ovf_update_second_row"); Q::Upd { tbl: t.name.clone(), col: "id".into(), val: E::Bin("mul", b(E::Col("id".into())), b(E::Int(-9223372036854775807))), wh: None } }
+                _ => { tag("div0_update_second_row"); Q::Upd { tbl: t.name.clone(), col: c.0.clone(), val: E::Bin("div", b(E::Col(c.0.clone())), b(E::Bin("sub", b(E::Col("id".into())), b(E::Int(r.range(2, 3)))))), wh: None } }
             }
         }
         _ => plain_q(r, s),
@@ -586,8 +589,8 @@ fn first_word(sql: &str) -> String {
     sql.chars().skip_while(|c| !c.is_alphabetic() && *c != '_').take_while(|c| c.is_alphanumeric() || *c == '_').collect::<String>().to_uppercase()
 }
 
-/// Two or more UPDATEs followed by a DELETE: inside one session transaction this is the region `sess_dml` of the
-/// known findings (rows that carry several versions of the same transaction).
+/// Two or more UPDATEs followed by a DELETE inside one session (measurement tag `upd_upd_del`): rows that carry several
+/// versions written by one transaction — a finding until the tuple fixes 3b34b0e, c92877b, 334c352, cf3800e, 0775d08.
 fn upd_upd_del(ops: &[String]) -> bool {
     let mut upd = 0;
     for o in ops {
@@ -699,7 +702,7 @@ fn xop_bytes(bs: &[u8]) -> String {
 
 pub fn gen_case(theme: &str, r: &mut Rng) -> Case {
     let schema = gen_schema(r);
-    let mut sess = theme == "sess_dml" || theme == "sess_atomicity" || (theme != "atomicity" && theme != "unique_violation" && r.chance(1, 3));
+    let sess = theme == "sess_dml" || theme == "sess_atomicity" || (theme != "atomicity" && theme != "unique_violation" && r.chance(1, 3));
     let pool = 1 + r.below(3) as usize;
     let mut tags: Vec<String> = vec![theme.to_string(), format!("pool{pool}"), format!("tables{}", schema.len())];
     let mut ops: Vec<String> = Vec::new();
@@ -818,10 +821,8 @@ pub fn gen_case(theme: &str, r: &mut Rng) -> Case {
             }
         }
     }
-    // outside the theme `sess_dml`, a sequence with UPDATE, UPDATE, DELETE runs in autocommit mode
-    if theme != "sess_dml" && theme != "sess_atomicity" && sess && upd_upd_del(&ops) {
-        sess = false;
-        tags.push("forced_db".into());
+    if sess && upd_upd_del(&ops) {
+        tags.push("upd_upd_del".into());
     }
     tags.push(if sess { "sess" } else { "db" }.into());
     if theme != "valid" {
